@@ -99,12 +99,13 @@ theorem stat_live {w1 w : World} (h : w1.stat = w.stat) : w1.live = w.live :=
 /-- relative to the core `k0` the body started from: alias, data, affine, header object and dtype code
     stay; slope / inter stay for header classes that have no such field -/
 def Inv (c : Ctx) (k0 k : Core) : Prop :=
-  k.alias = k0.alias ∧ k.data = k0.data ∧ (k.affine = k0.affine ∧ k.xflip = k0.xflip ∧ k.src = k0.src) ∧
+  k.alias = k0.alias ∧ k.data = k0.data ∧
+  (k.affine = k0.affine ∧ k.xflip = k0.xflip ∧ k.src = k0.src ∧ k.rest = k0.rest ∧ k.pending = k0.pending) ∧
   k.hdrObj = k0.hdrObj ∧ k.hdr.dtype = k0.hdr.dtype ∧
   (c.t.hasSlope = false → k.hdr.slope = k0.hdr.slope) ∧ (c.t.hasInter = false → k.hdr.inter = k0.hdr.inter)
 
 theorem Inv.refl (c : Ctx) (k : Core) : Inv c k k :=
-  ⟨rfl, rfl, ⟨rfl, rfl, rfl⟩, rfl, rfl, fun _ => rfl, fun _ => rfl⟩
+  ⟨rfl, rfl, ⟨rfl, rfl, rfl, rfl, rfl⟩, rfl, rfl, fun _ => rfl, fun _ => rfl⟩
 
 /-- the invariant of the `try:` body in the CURRENT code: the local `data` is never a live memory map -/
 def InvW (c : Ctx) (k0 : Core) (w : World) : Prop := Inv c k0 w.img ∧ w.live = none
@@ -116,11 +117,13 @@ theorem exec_inv (c : Ctx) (k0 : Core) (hl : c.hdrLocal = k0.hdrObj) (s : Step) 
   | mkWriter => simp only [exec]; split <;> exact ⟨h, hlive⟩
   | setSlopeInter =>
       simp only [exec]; split
-      · obtain ⟨h1, h2, h3, h4, h5, h6, h7⟩ := h
-        refine ⟨⟨h1, h2, h3, h4, h5, ?_, ?_⟩, hlive⟩
-        · intro hs; simp [World.setHdr, hs]; exact h6 hs
-        · intro hs; simp [World.setHdr, hs]; exact h7 hs
       · exact ⟨h, hlive⟩
+      · split
+        · obtain ⟨h1, h2, h3, h4, h5, h6, h7⟩ := h
+          refine ⟨⟨h1, h2, h3, h4, h5, ?_, ?_⟩, hlive⟩
+          · intro hs; simp [World.setHdr, hs]; exact h6 hs
+          · intro hs; simp [World.setHdr, hs]; exact h7 hs
+        · exact ⟨h, hlive⟩
   | chooseOffset =>
       obtain ⟨h1, h2, h3, h4, h5, h6, h7⟩ := h
       simp only [exec]; split
@@ -158,7 +161,8 @@ theorem runSteps_inv (c : Ctx) (k0 : Core) (hl : c.hdrLocal = k0.hdrObj) (ss : L
       exact andThen_inv (P := fun w => InvW c k0 w) (exec_inv c k0 hl s w h) (fun w hw => ih w hw)
 
 theorem Core.ext' {a b : Core} (h1 : a.hdr = b.hdr) (h2 : a.alias = b.alias) (h3 : a.data = b.data)
-    (h4 : a.affine = b.affine ∧ a.xflip = b.xflip ∧ a.src = b.src) (h5 : a.hdrObj = b.hdrObj) : a = b := by
+    (h4 : a.affine = b.affine ∧ a.xflip = b.xflip ∧ a.src = b.src ∧ a.rest = b.rest ∧ a.pending = b.pending)
+    (h5 : a.hdrObj = b.hdrObj) : a = b := by
   cases a; cases b; simp_all
 
 theorem materialize_img (copy : Bool) (w : World) : (materialize copy w).img = w.img := rfl
@@ -168,6 +172,21 @@ theorem materialize_live (w : World) : (materialize true w).live = none := by
   cases w.img.src with
   | array => rfl
   | proxy f m => cases m <;> rfl
+
+/-- the state `to_file_map` works on after `np.asanyarray(dataobj)` (+ copy) and `update_header()` -/
+def entry (w : World) : World := updateHeader (materialize true w)
+
+theorem entry_img (w : World) : (entry w).img = harmonise w.img := rfl
+theorem entry_bound (w : World) : (entry w).bound = w.bound := rfl
+theorem entry_live (w : World) : (entry w).live = none := materialize_live w
+
+theorem harmonise_idem (k : Core) : harmonise (harmonise k) = harmonise k := rfl
+theorem harmonise_hdr (k : Core) : (harmonise k).hdr = k.hdr := rfl
+theorem harmonise_of_none {k : Core} (h : k.pending = none) : harmonise k = k := by
+  cases k; simp_all [harmonise]
+
+/-- saving a harmonised copy of the image enters the body in exactly the same state -/
+theorem entry_harm (w : World) : entry { w with img := harmonise w.img } = entry w := rfl
 
 theorem Hdr.ext' {a b : Hdr} (h1 : a.offset = b.offset) (h2 : a.dtype = b.dtype) (h3 : a.slope = b.slope)
     (h4 : a.inter = b.inter) : a = b := by
@@ -185,19 +204,18 @@ theorem applyOverride_fields {t : Gen.Traits} {dt : DtReq} {h0 h1 : Hdr} (h : ap
   · cases h
 
 /-- `AnalyzeImage.to_file_map` leaves the image exactly as it was — whatever is raised, wherever -/
-theorem analyzeSave_img (t : Gen.Traits) (env : Env) (dt : DtReq) (fault : Fault) (w : World)
-    (hrt : rtCode t w.img.hdr.dtype = w.img.hdr.dtype) :
-    (analyzeSave t env dt fault w).2.img = w.img := by
-  unfold analyzeSave
-  simp only [materialize_img]
+theorem analyzeBody_img (t : Gen.Traits) (env : Env) (dt : DtReq) (fault : Fault) (w : World)
+    (hrt : rtCode t w.img.hdr.dtype = w.img.hdr.dtype) (hlive : w.live = none) :
+    (analyzeBody t env dt fault w).2.img = w.img := by
+  unfold analyzeBody
+  simp only []
   split
   · rfl
   · rename_i h1 hov
     obtain ⟨ho, hs, hi⟩ := applyOverride_fields hov
     simp only [tryFinally]
-    have hinv := runSteps_inv (mkCtx t env fault (materialize true w) h1) ((materialize true w).setHdr h1).img rfl
-      (coreBody (mkCtx t env fault (materialize true w) h1)) ((materialize true w).setHdr h1)
-      ⟨Inv.refl _ _, materialize_live w⟩
+    have hinv := runSteps_inv (mkCtx t env fault w h1) (w.setHdr h1).img rfl
+      (coreBody (mkCtx t env fault w h1)) (w.setHdr h1) ⟨Inv.refl _ _, hlive⟩
     obtain ⟨⟨i1, i2, i3, i4, i5, i6, i7⟩, _⟩ := hinv
     apply Core.ext'
     · apply Hdr.ext'
@@ -216,18 +234,25 @@ theorem analyzeSave_img (t : Gen.Traits) (env : Env) (dt : DtReq) (fault : Fault
     · exact i3
     · exact i4
 
+/-- `AnalyzeImage.to_file_map` leaves the image exactly as `update_header()` made it — whatever is raised -/
+theorem analyzeSave_img (t : Gen.Traits) (env : Env) (dt : DtReq) (fault : Fault) (w : World)
+    (hrt : rtCode t w.img.hdr.dtype = w.img.hdr.dtype) :
+    (analyzeSave t env dt fault w).2.img = harmonise w.img := by
+  unfold analyzeSave
+  exact analyzeBody_img t env dt fault (entry w) hrt (entry_live w)
+
 /-- in the current code the local `data` is never a live memory map when `to_file_map` returns or raises -/
 theorem analyzeSave_live (t : Gen.Traits) (env : Env) (dt : DtReq) (fault : Fault) (w : World) :
     (analyzeSave t env dt fault w).2.live = none := by
-  unfold analyzeSave
+  unfold analyzeSave analyzeBody
   simp only []
   split
   · exact materialize_live w
   · rename_i h1 hov
     simp only [tryFinally]
-    exact (runSteps_inv (mkCtx t env fault (materialize true w) h1) ((materialize true w).setHdr h1).img rfl
-      (coreBody (mkCtx t env fault (materialize true w) h1)) ((materialize true w).setHdr h1)
-      ⟨Inv.refl _ _, materialize_live w⟩).2
+    exact (runSteps_inv (mkCtx t env fault (entry w) h1) ((entry w).setHdr h1).img rfl
+      (coreBody (mkCtx t env fault (entry w) h1)) ((entry w).setHdr h1)
+      ⟨Inv.refl _ _, entry_live w⟩).2
 
 theorem niftiRestore_img (t : Gen.Traits) (a0 : Option Alias) (d0 : Nat) (w : World) :
     (niftiRestore t a0 d0 w).img =
@@ -235,27 +260,40 @@ theorem niftiRestore_img (t : Gen.Traits) (a0 : Option Alias) (d0 : Nat) (w : Wo
   unfold niftiRestore
   cases a0 <;> rfl
 
-/-- `Nifti1Pair.to_file_map` leaves the image exactly as it was -/
+/-- what a save may do to the image: nothing (it raised before `update_header()`), or exactly what
+    `update_header()` does — the latter whenever it succeeds -/
+def HarmOut (r : Res) (k : Core) : Prop :=
+  (r.2.img = k ∨ r.2.img = harmonise k) ∧ (r.1 = none → r.2.img = harmonise k)
+
+theorem HarmOut.of_harm {r : Res} {k : Core} (h : r.2.img = harmonise k) : HarmOut r k :=
+  ⟨Or.inr h, fun _ => h⟩
+
+theorem HarmOut.of_err {e : Err} {w : World} {k : Core} (h : w.img = k) : HarmOut (some e, w) k :=
+  ⟨Or.inl h, fun h' => nomatch h'⟩
+
+/-- `Nifti1Pair.to_file_map` leaves the image as it was up to `update_header()` -/
 theorem niftiSave_img (t : Gen.Traits) (env : Env) (dt : DtReq) (fault : Fault) (w : World)
     (hrtAll : ∀ c ∈ t.codes, rtCode t c = c) (hdt : w.img.hdr.dtype ∈ t.codes)
     (hres : ∀ a c, env.resolve a = some c → c ∈ t.codes) :
-    (niftiSave t env dt fault w).2.img = w.img := by
+    HarmOut (niftiSave t env dt fault w) w.img := by
   unfold niftiSave niftiSaveWith
   simp only []
   split
   · rename_i ha
+    apply HarmOut.of_harm
     simp only [tryFinally]
     rw [niftiRestore_img, analyzeSave_img t env dt fault w (hrtAll _ hdt)]
-    apply Core.ext' <;> simp [ha, hrtAll _ hdt]
+    apply Core.ext' <;> simp [ha, hrtAll _ hdt, harmonise]
   · rename_i a ha
     split
-    · rfl
+    · exact HarmOut.of_err rfl
     · rename_i c hc
       have hcm := hres a c hc
       rw [if_pos hcm]
+      apply HarmOut.of_harm
       simp only [tryFinally]
       rw [niftiRestore_img, analyzeSave_img t env dt fault _ (by simpa [World.setAlias, World.setDtype, World.setHdr] using hrtAll c hcm)]
-      apply Core.ext' <;> simp [ha, hrtAll _ hdt, World.setAlias, World.setDtype, World.setHdr]
+      apply Core.ext' <;> simp [ha, hrtAll _ hdt, World.setAlias, World.setDtype, World.setHdr, harmonise]
 
 /-! ### steps that cannot change the image at all (I/O, emission, binding of the file map) -/
 
@@ -336,7 +374,7 @@ theorem mghBody_keeps (c : Ctx) : ∀ s ∈ mghBody c, s.keepsImg = true := by
 
 theorem spmSave_img (t : Gen.Traits) (env : Env) (dt : DtReq) (fault : Fault) (w : World)
     (hrt : rtCode t w.img.hdr.dtype = w.img.hdr.dtype) :
-    (spmSave t env dt fault w).2.img = w.img := by
+    (spmSave t env dt fault w).2.img = harmonise w.img := by
   unfold spmSave spmSaveWith
   have ha := analyzeSave_img t env dt fault w hrt
   have hl := analyzeSave_live t env dt fault w
@@ -350,18 +388,21 @@ theorem spmSave_img (t : Gen.Traits) (env : Env) (dt : DtReq) (fault : Fault) (w
   · exact ha
 
 theorem mghSave_img (t : Gen.Traits) (env : Env) (dt : DtReq) (fault : Fault) (w : World) :
-    (mghSave t env dt fault w).2.img = w.img := by
+    HarmOut (mghSave t env dt fault w) w.img := by
   unfold mghSave
-  have hw := withOpened_img (mghCtx t env fault (materialize true w)) .image _ (materialize true w)
-    (mghBody_keeps (mghCtx t env fault (materialize true w))) (materialize_live w)
-  rw [materialize_img] at hw
+  have hw := withOpened_img (mghCtx t env fault (entry w)) .image _ (entry w)
+    (mghBody_keeps (mghCtx t env fault (entry w))) (entry_live w)
+  rw [entry_img] at hw
   split
-  · rfl
-  · simp only []
+  · exact HarmOut.of_err rfl
+  · apply HarmOut.of_harm
+    show (match withOpened (mghCtx t env fault (entry w)) .image (mghBody (mghCtx t env fault (entry w))) (entry w) with
+      | (none, w1) => runSteps (mghCtx t env fault (entry w)) [.bindHeader, .bindFileMap] w1
+      | r => r).2.img = harmonise w.img
     split
     · rename_i w1 h1
       rw [h1] at hw
-      simp only [runSteps, exec, Res.andThen, mghCtx, mkCtx, materialize_img]
+      simp only [runSteps, exec, Res.andThen, mghCtx, mkCtx, entry_img]
       simp only [] at hw
       rw [← hw]
     · exact hw
@@ -369,23 +410,27 @@ theorem mghSave_img (t : Gen.Traits) (env : Env) (dt : DtReq) (fault : Fault) (w
 theorem ciftiSave_img (env : Env) (dt : DtReq) (fault : Fault) (w : World)
     (hrtAll : ∀ c ∈ Gen.n2single.codes, rtCode Gen.n2single c = c) (hdt : w.img.hdr.dtype ∈ Gen.n2single.codes)
     (hres : ∀ a c, env.resolve a = some c → c ∈ Gen.n2single.codes) :
-    (ciftiSave env dt fault w).2.img = w.img := by
+    (ciftiSave env dt fault w).2.img = harmonise w.img := by
   unfold ciftiSave
   simp only []
   split
   · rfl
   · rename_i i hi
-    have hidt : i.hdr.dtype ∈ Gen.n2single.codes ∧ i.data = w.img.data := by
+    have hidt : i.hdr.dtype ∈ Gen.n2single.codes ∧ i.data = w.img.data ∧ i.pending = none := by
       split at hi
-      · cases hi; exact ⟨hdt, rfl⟩
+      · cases hi; exact ⟨hdt, rfl, rfl⟩
       · split at hi
-        · rename_i hc; cases hi; exact ⟨hc, rfl⟩
+        · rename_i hc; cases hi; exact ⟨hc, rfl, rfl⟩
         · cases hi
-      · cases hi; exact ⟨hdt, rfl⟩
+      · cases hi; exact ⟨hdt, rfl, rfl⟩
       · cases hi
     simp only []
-    rw [niftiSave_img Gen.n2single env .none fault { w with img := i } hrtAll hidt.1 hres]
-    simp only [hidt.2]
+    have hn := (niftiSave_img Gen.n2single env .none fault { (updateHeader w) with img := i } hrtAll hidt.1 hres).1
+    rw [harmonise_of_none hidt.2.2, or_self] at hn
+    simp only [] at hn
+    rw [hn]
+    simp only [hidt.2.1]
+    rfl
 
 /-! ### when `self.file_map = file_map` is executed -/
 
@@ -397,7 +442,7 @@ theorem exec_bound (c : Ctx) (s : Step) (w : World) (h : s.isBindFm = false) :
     (exec c s w).2.bound = w.bound := by
   cases s with
   | mkWriter => simp only [exec]; split <;> rfl
-  | setSlopeInter => simp only [exec]; split <;> rfl
+  | setSlopeInter => simp only [exec]; split <;> (try split) <;> rfl
   | chooseOffset =>
       simp only [exec]; split
       · split
@@ -475,13 +520,13 @@ theorem binds_err (e : Err) (w' w : World) (h : w'.bound = w.bound) : BindsOnSuc
 
 theorem analyzeSave_binds (t : Gen.Traits) (env : Env) (dt : DtReq) (fault : Fault) (w : World) :
     BindsOnSuccess (analyzeSave t env dt fault w) w := by
-  unfold analyzeSave
+  unfold analyzeSave analyzeBody
   simp only []
   split
   · exact binds_err _ _ _ rfl
   · rename_i h1 _
     simp only [tryFinally]
-    exact coreBody_bound (mkCtx t env fault (materialize true w) h1) ((materialize true w).setHdr h1)
+    exact coreBody_bound (mkCtx t env fault (entry w) h1) ((entry w).setHdr h1)
 
 theorem niftiRestore_bound (t : Gen.Traits) (a0 : Option Alias) (d0 : Nat) (w : World) :
     (niftiRestore t a0 d0 w).bound = w.bound := by
@@ -547,18 +592,20 @@ theorem spmSave_binds_of_ok (t : Gen.Traits) (env : Env) (dt : DtReq) (fault : F
 theorem mghSave_binds (t : Gen.Traits) (env : Env) (dt : DtReq) (fault : Fault) (w : World) :
     BindsOnSuccess (mghSave t env dt fault w) w := by
   unfold mghSave
-  have hb := withOpened_bound (mghCtx t env fault (materialize true w)) .image _ (materialize true w)
-    (mghBody_noBind (mghCtx t env fault (materialize true w)))
-  rw [materialize_bound] at hb
+  have hb := withOpened_bound (mghCtx t env fault (entry w)) .image _ (entry w)
+    (mghBody_noBind (mghCtx t env fault (entry w)))
+  rw [entry_bound] at hb
   split
   · exact binds_err _ _ _ rfl
-  · simp only []
+  · show BindsOnSuccess (match withOpened (mghCtx t env fault (entry w)) .image (mghBody (mghCtx t env fault (entry w))) (entry w) with
+      | (none, w1) => runSteps (mghCtx t env fault (entry w)) [.bindHeader, .bindFileMap] w1
+      | r => r) w
     split
     · rename_i w1 h1
       simp [runSteps, exec, Res.andThen, BindsOnSuccess]
     · rename_i r hne
-      rcases hr : withOpened (mghCtx t env fault (materialize true w)) File.image
-        (mghBody (mghCtx t env fault (materialize true w))) (materialize true w) with ⟨e, w1⟩
+      rcases hr : withOpened (mghCtx t env fault (entry w)) File.image
+        (mghBody (mghCtx t env fault (entry w))) (entry w) with ⟨e, w1⟩
       rw [hr] at hb
       cases e with
       | none => exact absurd hr (hne w1)
